@@ -2182,6 +2182,30 @@ pub fn oracle_c07(c: &WigCase, bytes: &[u8], all_ranges: bool, out: &mut Outcome
                     zoom_by_value_queries += 1;
                 }
                 let key = |v: &Vec<ZR>| v.iter().map(|z| (z.start, z.end, z.valid, z.min.to_bits(), z.max.to_bits(), z.sum.to_bits(), z.sumsq.to_bits())).collect::<Vec<_>>();
+                // ... and consumed through `Iterator::nth` (skip, step_by are built on it): nth(0)
+                // repeated, nth(1) repeated or skip(2), by the range
+                {
+                    let pat = ((s + 2 * e) % 3) as usize;
+                    let mut it = rc.get_zoom_interval(name, s, e, res).map_err(|e| format!("cached: {}", e))?;
+                    let mut vn = vec![];
+                    if pat < 2 {
+                        while let Some(z) = it.nth(pat) {
+                            vn.push(zr_from(&z.map_err(|e| format!("nth: {}", e))?));
+                        }
+                    } else {
+                        for z in it.skip(2) {
+                            vn.push(zr_from(&z.map_err(|e| format!("skip: {}", e))?));
+                        }
+                    }
+                    let want: Vec<ZR> = match pat {
+                        0 => v.clone(),
+                        1 => v.iter().skip(1).step_by(2).cloned().collect(),
+                        _ => v.iter().skip(2).cloned().collect(),
+                    };
+                    if key(&vn) != key(&want) {
+                        zoom_paths_disagree.push(format!("{} res {} [{},{}): consumed with {} gives {} records, the plain loop {} (of which {} expected)", name, res, s, e, ["nth(0)", "nth(1)", "skip(2)"][pat], vn.len(), v.len(), want.len()));
+                    }
+                }
                 if key(&vc) != key(&v) || (by_value && key(&vm) != key(&v)) {
                     zoom_paths_disagree.push(format!("{} res {} [{},{}): plain {} cached {} by-value {} records", name, res, s, e, v.len(), vc.len(), vm.len()));
                 }
@@ -2324,6 +2348,30 @@ pub fn oracle_c08(c: &BedCase, bytes: &[u8], all_ranges: bool, out: &mut Outcome
                     zoom_by_value_queries += 1;
                 }
                 let key = |v: &Vec<ZR>| v.iter().map(|z| (z.start, z.end, z.valid, z.min.to_bits(), z.max.to_bits(), z.sum.to_bits(), z.sumsq.to_bits())).collect::<Vec<_>>();
+                // ... and consumed through `Iterator::nth` (skip, step_by are built on it): nth(0)
+                // repeated, nth(1) repeated or skip(2), by the range
+                {
+                    let pat = ((s + 2 * e) % 3) as usize;
+                    let mut it = rc.get_zoom_interval(name, s, e, res).map_err(|e| format!("cached: {}", e))?;
+                    let mut vn = vec![];
+                    if pat < 2 {
+                        while let Some(z) = it.nth(pat) {
+                            vn.push(zr_from(&z.map_err(|e| format!("nth: {}", e))?));
+                        }
+                    } else {
+                        for z in it.skip(2) {
+                            vn.push(zr_from(&z.map_err(|e| format!("skip: {}", e))?));
+                        }
+                    }
+                    let want: Vec<ZR> = match pat {
+                        0 => v.clone(),
+                        1 => v.iter().skip(1).step_by(2).cloned().collect(),
+                        _ => v.iter().skip(2).cloned().collect(),
+                    };
+                    if key(&vn) != key(&want) {
+                        zoom_paths_disagree.push(format!("{} res {} [{},{}): consumed with {} gives {} records, the plain loop {} (of which {} expected)", name, res, s, e, ["nth(0)", "nth(1)", "skip(2)"][pat], vn.len(), v.len(), want.len()));
+                    }
+                }
                 if key(&vc) != key(&v) || (by_value && key(&vm) != key(&v)) {
                     zoom_paths_disagree.push(format!("{} res {} [{},{}): plain {} cached {} by-value {} records", name, res, s, e, v.len(), vc.len(), vm.len()));
                 }
